@@ -414,9 +414,21 @@ func (c *c03Chain) submitted() [][]byte {
 func TestVerif_C03_SignAndSubmit(t *testing.T) {
 	r := verifkit.Start(t, "C03", "sign_and_submit")
 	defer r.Finish()
+	c03SignAndSubmitWorkload(t, r, r.N(60, 600))
+}
+
+// TestVerif_C03_SignAndSubmitRace: the same workload under the race detector
+// (the member's own goroutines - share broadcast, message loop, submission -
+// work on shared curve points).
+func TestVerif_C03_SignAndSubmitRace(t *testing.T) {
+	r := verifkit.Start(t, "C03", "sign_and_submit_race")
+	defer r.Finish()
+	c03SignAndSubmitWorkload(t, r, r.N(40, 300))
+}
+
+func c03SignAndSubmitWorkload(t *testing.T, r *verifkit.Run, nRuns int) {
 	r.SetRule("one real member runs SignAndSubmit (virtual block counter, in-memory ordered channel, stub chain) with keys from a PRNG polynomial (n 3..9, threshold n/2+1); the scripted rest of the group first sends, for every other sender, invalid shares (another member's share, share over another message, identity, negated, random point, random bytes, truncated), messages claiming the member's own index and senders outside the group, then the correct shares of exactly threshold-1 PRNG-chosen members in PRNG order; the entry submitted to the chain must be previousEntry^f(0). non-trivial = invalid shares were delivered before the valid ones (always)")
 	r.Assume("keys come from a locally generated polynomial, not from a GJKR run; the message order seen by the member is the sending order")
-	nRuns := r.N(60, 600)
 	var badSent, goodSent int64
 	verifkit.Parallel(nRuns, 0, func(ri int) {
 		rng := r.SubRand("e2e", ri)
@@ -549,4 +561,95 @@ func TestVerif_C03_SignAndSubmit(t *testing.T) {
 	})
 	r.Count("invalid_messages_delivered_first", badSent)
 	r.Count("valid_shares_delivered", goodSent)
+}
+
+// ---------------------------------------------------------------------------
+// The member's own goroutines: the shares it needs are already waiting when
+// it starts listening, so its message loop completes while its own share
+// broadcast (started with `go` before) may not have run yet. Under the race
+// detector any unsynchronised use of the same curve point by both is reported.
+// ---------------------------------------------------------------------------
+
+type c03PreChannel struct {
+	pre []net.Message
+}
+
+func (c *c03PreChannel) Name() string { return "c03pre" }
+func (c *c03PreChannel) Send(ctx context.Context, m net.TaggedMarshaler, _ ...net.RetransmissionStrategy) error {
+	_, err := m.Marshal()
+	return err
+}
+func (c *c03PreChannel) Recv(ctx context.Context, handler func(m net.Message)) {
+	for _, m := range c.pre {
+		handler(m)
+	}
+}
+func (c *c03PreChannel) SetUnmarshaler(func() net.TaggedUnmarshaler) {}
+func (c *c03PreChannel) SetFilter(net.BroadcastChannelFilter) error  { return nil }
+
+func TestVerif_C03_OwnShareBroadcastRace(t *testing.T) {
+	r := verifkit.Start(t, "C03", "own_share_broadcast_race")
+	defer r.Finish()
+	r.SetRule("one real member runs SignAndSubmit on a channel that hands it threshold-1 correct shares at the moment it starts listening (no goroutine or channel of the monitor in between), virtual block counter, stub chain; n 3..7; verdict from the race detector (accesses attributed to entry.go / bls.go / signer.go) and from the submitted entry")
+	nRuns := r.N(40, 400)
+	for ri := 0; ri < nRuns; ri++ {
+		rng := r.SubRand("pre", ri)
+		n := 3 + rng.Intn(5)
+		thr := n/2 + 1
+		w := c03NewWorld(rng, n, thr)
+		me := 1 + rng.Intn(n)
+		session := hex.EncodeToString(w.prevBytes)
+		ch := &c03PreChannel{}
+		var helpers []int
+		for j := 1; j <= n && len(helpers) < thr-1; j++ {
+			if j != me {
+				helpers = append(helpers, j)
+			}
+		}
+		for _, j := range helpers {
+			ch.pre = append(ch.pre, &c03Msg{payload: NewSignatureShareMessage(group.MemberIndex(j), w.sigShare[j].Marshal(), session), typ: "x", seq: uint64(j)})
+		}
+		desc := fmt.Sprintf("preloaded member=%d helpers=%v %s", me, helpers, w.desc)
+		r.Case(desc, true)
+		const start, step = 100, 3
+		clock := verifkit.NewClock(start)
+		chain := &c03Chain{cfg: &beaconchain.Config{GroupSize: n, HonestThreshold: thr, ResultPublicationBlockStep: step, RelayEntryTimeout: 100000}, clock: clock, handlers: map[int]func(*event.RelayEntrySubmitted){}}
+		done := make(chan error, 1)
+		go func() {
+			var err error
+			if r.Guard("pre:", desc, func() {
+				err = SignAndSubmit(c03NopLogger{}, clock, ch, chain, w.prevBytes, thr, w.signer(me), start)
+			}) {
+				err = fmt.Errorf("panicked")
+			}
+			done <- err
+		}()
+		deadline := time.Now().Add(30 * time.Second)
+		var ret error
+		returned := false
+		for !returned {
+			select {
+			case ret = <-done:
+				returned = true
+			case <-time.After(200 * time.Microsecond):
+				if clock.Height() < start+uint64((n+2)*step) {
+					clock.Advance(1)
+				}
+				if time.Now().After(deadline) {
+					clock.Set(start+100000, false)
+					r.Inconclusive("watchdog: preloaded member did not finish within 30 s")
+					return
+				}
+			}
+		}
+		if ret != nil {
+			r.Violation("pre:error", "SignAndSubmit failed although threshold-1 correct shares were waiting: "+ret.Error(), desc, nil)
+			continue
+		}
+		for _, e := range chain.submitted() {
+			if !bytes.Equal(e, w.sigWant) {
+				r.Violation("e2e:wrong-entry", "the submitted relay entry is not previousEntry^f(0)", desc, map[string]string{"submitted": verifkit.Hex(e), "want": verifkit.Hex(w.sigWant)})
+			}
+		}
+	}
 }
